@@ -120,3 +120,35 @@ Proof.
   exact (tiers_ref tiers profs Ht Hp).
 Qed.
 End Checker.
+
+(* ------------------------------------------------------------------ a staged-only tier is a no-op, unconditionally *)
+(* (no fragment hypothesis: holds for every variant, store, rule set and packet) *)
+Lemma staged_only_policies : forall kv tbl d pols p inscope act,
+  forallb kp_staged pols = true -> chk_policies kv tbl d pols p inscope act = inr (inscope, act).
+Proof.
+  intros kv tbl d pols p. induction pols as [|q qs IH]; intros inscope act H; [reflexivity|].
+  simpl in H. apply andb_true_iff in H. destruct H as [Hq Hqs]. simpl. rewrite Hq. exact (IH inscope act Hqs).
+Qed.
+
+Lemma staged_only_tier_checker : forall kv tbl pre t post profs p,
+  forallb kp_staged (kt_policies t) = true ->
+  chk_tiers kv tbl (pre ++ t :: post) profs p = chk_tiers kv tbl (pre ++ post) profs p.
+Proof.
+  intros kv tbl pre t post profs p H. induction pre as [|x pre IH]; simpl.
+  - rewrite (staged_only_policies kv tbl (kt_default t) (kt_policies t) p false CNoMatch H). reflexivity.
+  - destruct (chk_policies kv tbl (kt_default x) (kt_policies x) p false CNoMatch) as [s|[i a]]; [reflexivity|].
+    destruct (i && is_no_match a && negb (is_kd_pass (kt_default x))); [reflexivity|exact IH].
+Qed.
+
+Lemma staged_only_tier_ref : forall s pre t post pfs p,
+  forallb kp_staged (kt_policies t) = true ->
+  endpoint_verdict s (map ref_tier (pre ++ t :: post)) pfs p = endpoint_verdict s (map ref_tier (pre ++ post)) pfs p.
+Proof.
+  intros s pre t post pfs p H. induction pre as [|x pre IH]; simpl.
+  - unfold tier_verdict at 1. simpl t_policies.
+    assert (E : enforced (map ref_policy (kt_policies t)) = []).
+    { clear -H. induction (kt_policies t) as [|q qs IHq]; [reflexivity|]. simpl in H. apply andb_true_iff in H.
+      destruct H as [Hq Hqs]. unfold enforced in *. simpl. rewrite Hq. simpl. exact (IHq Hqs). }
+    rewrite E. reflexivity.
+  - rewrite IH. reflexivity.
+Qed.
